@@ -560,6 +560,8 @@ func defineFieldMap(ttype Named, fieldMap Fields) (FieldDefinitionMap, error) {
 			}
 			fieldDef.Args = append(fieldDef.Args, fieldArg)
 		}
+		// field.Args is a Go map: list the arguments in a defined (name) order.
+		sort.Slice(fieldDef.Args, func(i, j int) bool { return fieldDef.Args[i].PrivateName < fieldDef.Args[j].PrivateName })
 		resultFieldMap[fieldName] = fieldDef
 	}
 	return resultFieldMap, nil
